@@ -1,1 +1,2 @@
 from . import linejobs, monitors  # noqa
+from . import comp, envworld, compchecks  # noqa
